@@ -1,28 +1,29 @@
-import Ivg.Lemmas.FloatMono32
+import Ivg.Lemmas.FloatMono
 import Mathlib.Tactic.NormNum
 /-!
-# Error of one correctly rounded binary32 operation (the standard model)
+# Error of one correctly rounded binary64 operation (the standard model)
 
-On top of `FloatOrder32.Rnd v b` ("the bit pattern `b` is the correct rounding of the rational `v`") and
-`FloatMono32.add_Rnd … div_Rnd` (the soft-float operations return the correct rounding):
+On top of `FloatOrder.Rnd v b` ("the bit pattern `b` is the correct rounding of the rational `v`") and
+`FloatMono.add_Rnd … div_Rnd` (the soft-float operations return the correct rounding):
 
-* `Rnd_err`      : `Rnd v b`, `b` finite  ⟹  `|val b − v| ≤ 2^-24·|v|`  ∨  (`|v| < 2^-126` ∧ `|val b − v| ≤ 2^-150`)
-* `Rnd_rel_err`  : `2^-126 ≤ |v| < ovf = 2^128 − 2^103`  ⟹  `b` finite ∧ `|val b − v| ≤ 2^-24·|v|`
-* `Rnd_abs_err`  : `|v| < 2^-126`  ⟹  `b` finite ∧ `|val b − v| ≤ 2^-150`
+* `Rnd_err`      : `Rnd v b`, `b` finite  ⟹  `|val b − v| ≤ 2^-53·|v|`  ∨  (`|v| < 2^-1022` ∧ `|val b − v| ≤ 2^-1075`)
+* `Rnd_rel_err`  : `2^-1022 ≤ |v| < ovf = 2^1024 − 2^970`  ⟹  `b` finite ∧ `|val b − v| ≤ 2^-53·|v|`
+* `Rnd_abs_err`  : `|v| < 2^-1022`  ⟹  `b` finite ∧ `|val b − v| ≤ 2^-1075`
 * `Rnd_fin_ovf`, `Rnd_fin` : no overflow below the threshold / up to the largest finite number `maxv`
 * `Rnd_unique`, `Rnd_repr` : the rounding of a representable number is that number
 * `Rnd_le_repr`, `Rnd_ge_repr`, `Rnd_le_val` : monotonicity against representable bounds
-* `Rnd_err_grid` : a rounded point of the grid `2^-149·ℤ` (every sum or difference of floats) has relative
-  error `2^-24` with no exception for gradual underflow
-* `F32` level (`u = 2^-24`, `minN = 2^-126`): `add_err`, `sub_err`, `mul_err`, `div_err`, `abs_val_le_maxv`.
+* `Rnd_err_grid` : a rounded point of the grid `2^-1074·ℤ` (every sum or difference of floats) has relative
+  error `2^-53` with no exception for gradual underflow
+* `F64` level (`u = 2^-53`, `minN = 2^-1022`): `add_err`, `sub_err`, `mul_err`, `div_err`, `abs_val_le_maxv`.
 
-The proof goes through the implementation of `roundMag`: the kept digits `qOf` at the working exponent `fe32`
+The proof goes through the implementation of `roundMag`: the kept digits `qOf` at the working exponent `fe64`
 are within half a unit (`qOf_err`; `qOf_err_odd` for the truncated quotient with sticky bit of `Num.div`),
 and the packed pattern `pk fe q` has the value `q·2^fe` (`bval_pk`).
-`FloatErr64.lean` is the same file with the constants of binary64 substituted.
+This file is `FloatErr.lean` (binary32) with the constants of binary64 substituted mechanically
+(`sed`; prec 24 → 53, emin −149 → −1074, …): `u = 2^-53`, `minN = 2^-1022`, `ovf = 2^1024 − 2^970`.
 -/
-namespace Ivg.FloatErr
-open Ivg Num FloatOrder32 FloatMono32
+namespace Ivg.FloatErr64
+open Ivg Num FloatOrder FloatMono
 
 /-! ## `Nat` level: round-to-nearest-even of `m / 2^s` is within half a unit -/
 
@@ -87,35 +88,35 @@ theorem pow2_succ (a : Int) : pow2 (a + 1) = 2 * pow2 a := by rw [pow2_add, pow2
 theorem pow2_pred (a : Int) : pow2 a = 2 * pow2 (a - 1) := by
   have := pow2_succ (a - 1); rwa [sub_add_cancel] at this
 
-theorem bval_pk (fe : Int) (q : Nat) (hfe : -149 ≤ fe) (hq : q ≤ 16777216)
-    (hn : 8388608 ≤ q ∨ fe = -149) (hlt : 8388608 * (fe + 149).toNat + q < 2139095040) :
-    FinB (pk fe q) ∧ negB32 (pk fe q) = false ∧ bval (pk fe q) = (q : ℚ) * pow2 fe := by
-  have hpk : pk fe q = 8388608 * (fe + 149).toNat + q := by unfold pk; rw [if_neg (by omega)]
+theorem bval_pk (fe : Int) (q : Nat) (hfe : -1074 ≤ fe) (hq : q ≤ 9007199254740992)
+    (hn : 4503599627370496 ≤ q ∨ fe = -1074) (hlt : 4503599627370496 * (fe + 1074).toNat + q < 9218868437227405312) :
+    FinB (pk fe q) ∧ negB64 (pk fe q) = false ∧ bval (pk fe q) = (q : ℚ) * pow2 fe := by
+  have hpk : pk fe q = 4503599627370496 * (fe + 1074).toNat + q := by unfold pk; rw [if_neg (by omega)]
   rw [hpk]
-  obtain ⟨k, hk⟩ : ∃ k : Nat, fe = (k : Int) - 149 := ⟨(fe + 149).toNat, by omega⟩
+  obtain ⟨k, hk⟩ : ∃ k : Nat, fe = (k : Int) - 1074 := ⟨(fe + 1074).toNat, by omega⟩
   subst hk
-  have hk' : ((k : Int) - 149 + 149).toNat = k := by omega
+  have hk' : ((k : Int) - 1074 + 1074).toNat = k := by omega
   rw [hk'] at hlt ⊢
-  have hneg : negB32 (8388608 * k + q) = false := by
-    unfold negB32
-    have : (8388608 * k + q) / 2147483648 % 2 = 0 := by omega
+  have hneg : negB64 (4503599627370496 * k + q) = false := by
+    unfold negB64
+    have : (4503599627370496 * k + q) / 9223372036854775808 % 2 = 0 := by omega
     rw [this]; rfl
   refine ⟨by unfold FinB; omega, hneg, ?_⟩
   unfold bval sval; rw [hneg]
   simp only [Bool.false_eq_true, if_false, one_mul]
-  by_cases h1 : q < 8388608
+  by_cases h1 : q < 4503599627370496
   · have hk0 : k = 0 := by omega
     subst hk0
-    have hm : mantB (8388608 * 0 + q) = q := by unfold mantB; split <;> omega
-    have he : expB (8388608 * 0 + q) = ((0 : Nat) : Int) - 149 := by unfold expB; split <;> omega
+    have hm : mantB (4503599627370496 * 0 + q) = q := by unfold mantB; split <;> omega
+    have he : expB (4503599627370496 * 0 + q) = ((0 : Nat) : Int) - 1074 := by unfold expB; split <;> omega
     rw [hm, he]
-  · by_cases h2 : q = 16777216
+  · by_cases h2 : q = 9007199254740992
     · subst h2
-      have hm : mantB (8388608 * k + 16777216) = 8388608 := by unfold mantB; split <;> omega
-      have he : expB (8388608 * k + 16777216) = ((k : Int) - 149) + 1 := by unfold expB; split <;> omega
+      have hm : mantB (4503599627370496 * k + 9007199254740992) = 4503599627370496 := by unfold mantB; split <;> omega
+      have he : expB (4503599627370496 * k + 9007199254740992) = ((k : Int) - 1074) + 1 := by unfold expB; split <;> omega
       rw [hm, he, pow2_succ]; push_cast; ring
-    · have hm : mantB (8388608 * k + q) = q := by unfold mantB; split <;> omega
-      have he : expB (8388608 * k + q) = (k : Int) - 149 := by unfold expB; split <;> omega
+    · have hm : mantB (4503599627370496 * k + q) = q := by unfold mantB; split <;> omega
+      have he : expB (4503599627370496 * k + q) = (k : Int) - 1074 := by unfold expB; split <;> omega
       rw [hm, he]
 
 /-! ## half a unit in the last place -/
@@ -173,23 +174,23 @@ theorem qOf_err_odd (m : Nat) (e fe : Int) (x : ℚ) (hfe : e + 2 ≤ fe) (hm : 
   apply scaled_err _ (m : ℚ) _ 1 _ _ hpe (abs_le.2 ⟨by linarith, by linarith⟩) <;> linarith
 
 
-/-! ## one rounding: relative error `2^-24` in the normal range, absolute error `2^-150` below it -/
+/-! ## one rounding: relative error `2^-53` in the normal range, absolute error `2^-1075` below it -/
 
 /-- `x·2^E` is what is rounded: either `x = M` exactly, or `M` is the odd "truncated quotient + sticky bit"
-    representative of at least 26 bits and `x` lies strictly between its neighbours -/
+    representative of at least 55 bits and `x` lies strictly between its neighbours -/
 def Repr (M : Nat) (x : ℚ) : Prop :=
-  x = M ∨ (M % 2 = 1 ∧ 26 ≤ bitLen M ∧ (M : ℚ) - 1 < x ∧ x < M + 1)
+  x = M ∨ (M % 2 = 1 ∧ 55 ≤ bitLen M ∧ (M : ℚ) - 1 < x ∧ x < M + 1)
 
 /-- the kept digits are within half a unit of the working exponent of `x·2^E`, and `x` lies in the binade of `M` -/
 theorem round_core (M : Nat) (E : Int) (x : ℚ) (hM : 0 < M) (hx : Repr M x) :
-    |(qOf M E (fe32 M E) : ℚ) * pow2 (fe32 M E) - x * pow2 E| ≤ pow2 (fe32 M E - 1) ∧
+    |(qOf M E (fe64 M E) : ℚ) * pow2 (fe64 M E) - x * pow2 E| ≤ pow2 (fe64 M E - 1) ∧
     pow2 ((bitLen M - 1 : Nat) : Int) ≤ x ∧ x < pow2 (bitLen M) := by
   obtain ⟨hL1, hL2, hL3⟩ := bitLen_bounds hM
-  have herr : |(qOf M E (fe32 M E) : ℚ) * pow2 (fe32 M E) - x * pow2 E| ≤ pow2 (fe32 M E - 1) := by
+  have herr : |(qOf M E (fe64 M E) : ℚ) * pow2 (fe64 M E) - x * pow2 E| ≤ pow2 (fe64 M E - 1) := by
     rcases hx with rfl | ⟨ho, hb, hx1, hx2⟩
     · exact qOf_err M E _
     · apply qOf_err_odd M E _ x _ ho hx1 hx2
-      unfold fe32; split <;> omega
+      unfold fe64; split <;> omega
   have hxlo : ((2 ^ (bitLen M - 1) : Nat) : ℚ) ≤ x := by
     rcases hx with rfl | ⟨ho, hb, hx1, hx2⟩
     · exact_mod_cast hL1
@@ -208,88 +209,88 @@ theorem round_core (M : Nat) (E : Int) (x : ℚ) (hM : 0 < M) (hx : Repr M x) :
   rw [← pow2_nat] at hxlo hxhi
   exact ⟨herr, hxlo, hxhi⟩
 
-theorem qOf_norm (M : Nat) (E : Int) (hM : 0 < M) : 8388608 ≤ qOf M E (fe32 M E) ∨ fe32 M E = -149 := by
-  rcases Int.lt_or_eq_of_le (fe32_ge M E) with h | h
+theorem qOf_norm (M : Nat) (E : Int) (hM : 0 < M) : 4503599627370496 ≤ qOf M E (fe64 M E) ∨ fe64 M E = -1074 := by
+  rcases Int.lt_or_eq_of_le (fe64_ge M E) with h | h
   · exact Or.inl (qOf_ge M E hM h)
   · exact Or.inr h.symm
 
 theorem roundMag_err (M : Nat) (E : Int) (x : ℚ) (hM : 0 < M) (hx : Repr M x)
-    (hfin : roundMag .f32 M E < 2139095040) :
-    FinB (roundMag .f32 M E) ∧ negB32 (roundMag .f32 M E) = false ∧
-    (|bval (roundMag .f32 M E) - x * pow2 E| ≤ pow2 (-24) * (x * pow2 E) ∨
-     (x * pow2 E < pow2 (-126) ∧ |bval (roundMag .f32 M E) - x * pow2 E| ≤ pow2 (-150))) := by
+    (hfin : roundMag .f64 M E < 9218868437227405312) :
+    FinB (roundMag .f64 M E) ∧ negB64 (roundMag .f64 M E) = false ∧
+    (|bval (roundMag .f64 M E) - x * pow2 E| ≤ pow2 (-53) * (x * pow2 E) ∨
+     (x * pow2 E < pow2 (-1022) ∧ |bval (roundMag .f64 M E) - x * pow2 E| ≤ pow2 (-1075))) := by
   rw [roundMag_eq] at hfin ⊢
-  have hfe := fe32_ge M E
+  have hfe := fe64_ge M E
   have hq := qOf_le M E
   have hn := qOf_norm M E hM
-  have hlt : 8388608 * (fe32 M E + 149).toNat + qOf M E (fe32 M E) < 2139095040 := by
+  have hlt : 4503599627370496 * (fe64 M E + 1074).toNat + qOf M E (fe64 M E) < 9218868437227405312 := by
     unfold pk at hfin; split at hfin <;> omega
   obtain ⟨h1, h2, h3⟩ := bval_pk _ _ hfe hq hn hlt
   refine ⟨h1, h2, ?_⟩
   rw [h3]
   obtain ⟨herr, hxlo, hxhi⟩ := round_core M E x hM hx
   have hpE := pow2_pos E
-  by_cases hc : E + (bitLen M : Int) - 24 < -149
+  by_cases hc : E + (bitLen M : Int) - 53 < -1074
   · right
-    have hfe' : fe32 M E = -149 := by unfold fe32; rw [if_pos hc]
+    have hfe' : fe64 M E = -1074 := by unfold fe64; rw [if_pos hc]
     rw [hfe'] at herr ⊢
     refine ⟨?_, herr⟩
     calc x * pow2 E < pow2 (bitLen M) * pow2 E := mul_lt_mul_of_pos_right hxhi hpE
       _ = pow2 (bitLen M + E) := (pow2_add _ _).symm
-      _ ≤ pow2 (-126) := pow2_mono (by omega)
+      _ ≤ pow2 (-1022) := pow2_mono (by omega)
   · left
-    have hfe' : fe32 M E = E + (bitLen M : Int) - 24 := by unfold fe32; rw [if_neg hc]
+    have hfe' : fe64 M E = E + (bitLen M : Int) - 53 := by unfold fe64; rw [if_neg hc]
     refine le_trans herr ?_
-    have e1 : pow2 (fe32 M E - 1) = pow2 (-24) * (pow2 ((bitLen M - 1 : Nat) : Int) * pow2 E) := by
+    have e1 : pow2 (fe64 M E - 1) = pow2 (-53) * (pow2 ((bitLen M - 1 : Nat) : Int) * pow2 E) := by
       rw [← pow2_add, ← pow2_add]; congr 1; rw [hfe']; have := (bitLen_bounds hM).2.2; omega
     rw [e1]
     exact mul_le_mul_of_nonneg_left (mul_le_mul_of_nonneg_right hxlo hpE.le) (pow2_pos _).le
 
-/-- the overflow threshold `(2^25 − 1)·2^103 = 2^128 − 2^103`: the midpoint between the largest finite number and
-    `2^128`, which rounds (to even) to infinity -/
-def ovf : ℚ := 33554431 * pow2 103
+/-- the overflow threshold `(2^54 − 1)·2^970 = 2^1024 − 2^970`: the midpoint between the largest finite number and
+    `2^1024`, which rounds (to even) to infinity -/
+def ovf : ℚ := 18014398509481983 * pow2 970
 
 /-- below the overflow threshold the rounding is finite -/
 theorem roundMag_fin (M : Nat) (E : Int) (x : ℚ) (hM : 0 < M) (hx : Repr M x) (hv : x * pow2 E < ovf) :
-    roundMag .f32 M E < 2139095040 := by
+    roundMag .f64 M E < 9218868437227405312 := by
   by_contra hc
   rw [roundMag_eq] at hc
-  have hfe := fe32_ge M E
+  have hfe := fe64_ge M E
   have hq := qOf_le M E
   have hn := qOf_norm M E hM
-  have hge : 2139095040 ≤ 8388608 * (fe32 M E + 149).toNat + qOf M E (fe32 M E) := by
+  have hge : 9218868437227405312 ≤ 4503599627370496 * (fe64 M E + 1074).toNat + qOf M E (fe64 M E) := by
     unfold pk at hc; split at hc <;> omega
   obtain ⟨herr, hxlo, hxhi⟩ := round_core M E x hM hx
   have hL := (bitLen_bounds hM).2.2
   have hpE := pow2_pos E
-  have h128 : ovf = pow2 128 - pow2 103 := by
-    have : pow2 128 = 33554432 * pow2 103 := by
-      have := pow2_split 128 103 (by omega)
+  have h128 : ovf = pow2 1024 - pow2 970 := by
+    have : pow2 1024 = 18014398509481984 * pow2 970 := by
+      have := pow2_split 1024 970 (by omega)
       rw [this]
-      have : (128 - 103 : Int).toNat = 25 := by decide
+      have : (1024 - 970 : Int).toNat = 54 := by decide
       rw [this]; norm_num
     unfold ovf; rw [this]; ring
-  have hfe104 : 104 ≤ fe32 M E := by omega
-  by_cases h105 : 105 ≤ fe32 M E
-  · -- then `x·2^E ≥ 2^(fe+23) ≥ 2^128`
-    have hfe' : fe32 M E = E + (bitLen M : Int) - 24 := by unfold fe32 at h105 ⊢; split <;> omega
-    have : pow2 128 ≤ x * pow2 E := by
-      calc pow2 128 ≤ pow2 (((bitLen M - 1 : Nat) : Int) + E) := pow2_mono (by omega)
+  have hfe104 : 971 ≤ fe64 M E := by omega
+  by_cases h105 : 972 ≤ fe64 M E
+  · -- then `x·2^E ≥ 2^(fe+52) ≥ 2^1024`
+    have hfe' : fe64 M E = E + (bitLen M : Int) - 53 := by unfold fe64 at h105 ⊢; split <;> omega
+    have : pow2 1024 ≤ x * pow2 E := by
+      calc pow2 1024 ≤ pow2 (((bitLen M - 1 : Nat) : Int) + E) := pow2_mono (by omega)
         _ = pow2 ((bitLen M - 1 : Nat) : Int) * pow2 E := pow2_add _ _
         _ ≤ x * pow2 E := mul_le_mul_of_nonneg_right hxlo hpE.le
-    have := pow2_pos 103
+    have := pow2_pos 970
     linarith
-  · -- `fe = 104`, `q = 2^24`, the error is at most `2^103`
-    have hfe' : fe32 M E = 104 := by omega
+  · -- `fe = 971`, `q = 2^53`, the error is at most `2^970`
+    have hfe' : fe64 M E = 971 := by omega
     rw [hfe'] at herr hge
-    have hq24 : qOf M E 104 = 16777216 := by rw [hfe'] at hq; omega
+    have hq24 : qOf M E 971 = 9007199254740992 := by rw [hfe'] at hq; omega
     rw [hq24] at herr
-    have : (16777216 : ℚ) * pow2 104 = pow2 128 := by
-      have := pow2_split 128 104 (by omega)
+    have : (9007199254740992 : ℚ) * pow2 971 = pow2 1024 := by
+      have := pow2_split 1024 971 (by omega)
       rw [this]
-      have : (128 - 104 : Int).toNat = 24 := by decide
+      have : (1024 - 971 : Int).toNat = 53 := by decide
       rw [this]; norm_num
-    have e103 : (104 - 1 : Int) = 103 := by decide
+    have e103 : (971 - 1 : Int) = 970 := by decide
     rw [e103] at herr
     have h1 := (abs_le.1 herr).2
     push_cast at h1
@@ -297,7 +298,7 @@ theorem roundMag_fin (M : Nat) (E : Int) (x : ℚ) (hM : 0 < M) (hx : Repr M x) 
 
 /-- a representative `(M, E, x)` of what `rmag T d e` rounds -/
 theorem rmag_repr (T d : Nat) (e : Int) (h : Ok T d) :
-    ∃ M E x, 0 < M ∧ Repr M x ∧ rmag T d e = roundMag .f32 M E ∧ (T : ℚ) / d * pow2 e = x * pow2 E := by
+    ∃ M E x, 0 < M ∧ Repr M x ∧ rmag T d e = roundMag .f64 M E ∧ (T : ℚ) / d * pow2 e = x * pow2 E := by
   obtain ⟨hd, hT, hq⟩ := h
   have e1 := Nat.div_add_mod T d
   have hdq : (0 : ℚ) < d := by exact_mod_cast hd
@@ -312,7 +313,7 @@ theorem rmag_repr (T d : Nat) (e : Int) (h : Ok T d) :
     have hM : 0 < T / d := Nat.div_pos (Nat.le_of_dvd hT hdvd) hd
     exact ⟨T / d, e, _, hM, Or.inl rfl, rfl, by rw [hc]⟩
   · rw [if_neg h0]
-    have hQ : 25 ≤ bitLen (T / d) := by
+    have hQ : 54 ≤ bitLen (T / d) := by
       rcases hq with hq | hq
       · exact absurd hq h0
       · exact hq
@@ -320,11 +321,11 @@ theorem rmag_repr (T d : Nat) (e : Int) (h : Ok T d) :
     have hv : (T : ℚ) / d * pow2 e = (2 * (T : ℚ) / d) * pow2 (e - 1) := by
       rw [pow2_pred e]; ring
     refine ⟨2 * (T / d) + 1, e - 1, 2 * (T : ℚ) / d, by omega, Or.inr ⟨by omega, ?_, ?_, ?_⟩, rfl, hv⟩
-    · have h24 : 2 ^ 24 ≤ T / d := by
+    · have h24 : 2 ^ 53 ≤ T / d := by
         by_contra hc
-        have := bitLen_le (m := T / d) (k := 24) (by omega)
+        have := bitLen_le (m := T / d) (k := 53) (by omega)
         omega
-      exact bitLen_ge (k := 25) (by omega)
+      exact bitLen_ge (k := 54) (by omega)
     · rw [lt_div_iff₀ hdq]
       have : (T / d) * d < T := by
         have : d * (T / d) = T / d * d := Nat.mul_comm _ _
@@ -339,39 +340,39 @@ theorem rmag_repr (T d : Nat) (e : Int) (h : Ok T d) :
       push_cast; linarith
 
 /-- the rounding `rmag T d e` of the positive rational `v = T/d·2^e`, when it does not overflow -/
-theorem rmag_err (T d : Nat) (e : Int) (h : Ok T d) (hfin : rmag T d e < 2139095040) :
-    FinB (rmag T d e) ∧ negB32 (rmag T d e) = false ∧
-    (|bval (rmag T d e) - (T : ℚ) / d * pow2 e| ≤ pow2 (-24) * ((T : ℚ) / d * pow2 e) ∨
-     ((T : ℚ) / d * pow2 e < pow2 (-126) ∧ |bval (rmag T d e) - (T : ℚ) / d * pow2 e| ≤ pow2 (-150))) := by
+theorem rmag_err (T d : Nat) (e : Int) (h : Ok T d) (hfin : rmag T d e < 9218868437227405312) :
+    FinB (rmag T d e) ∧ negB64 (rmag T d e) = false ∧
+    (|bval (rmag T d e) - (T : ℚ) / d * pow2 e| ≤ pow2 (-53) * ((T : ℚ) / d * pow2 e) ∨
+     ((T : ℚ) / d * pow2 e < pow2 (-1022) ∧ |bval (rmag T d e) - (T : ℚ) / d * pow2 e| ≤ pow2 (-1075))) := by
   obtain ⟨M, E, x, hM, hx, e1, e2⟩ := rmag_repr T d e h
   rw [e1] at hfin ⊢; rw [e2]
   exact roundMag_err M E x hM hx hfin
 
 theorem rmag_fin (T d : Nat) (e : Int) (h : Ok T d) (hv : (T : ℚ) / d * pow2 e < ovf) :
-    rmag T d e < 2139095040 := by
+    rmag T d e < 9218868437227405312 := by
   obtain ⟨M, E, x, hM, hx, e1, e2⟩ := rmag_repr T d e h
   rw [e1]; rw [e2] at hv
   exact roundMag_fin M E x hM hx hv
 
-theorem neg_pos_bits (mag : Nat) (h : mag < 2147483648) : Num.neg .f32 mag = 2147483648 + mag := by
-  unfold Num.neg; rw [signBit_f32, if_neg (by omega)]; omega
+theorem neg_pos_bits (mag : Nat) (h : mag < 9223372036854775808) : Num.neg .f64 mag = 9223372036854775808 + mag := by
+  unfold Num.neg; rw [signBit_f64, if_neg (by omega)]; omega
 
-/-- **the standard model of one rounding** for binary32: a correctly rounded finite result is within relative
-    `2^-24` of the exact value, or the exact value is below the normal range and the result is within `2^-150` -/
+/-- **the standard model of one rounding** for binary64: a correctly rounded finite result is within relative
+    `2^-53` of the exact value, or the exact value is below the normal range and the result is within `2^-1075` -/
 theorem Rnd_err (v : ℚ) (b : Nat) (h : Rnd v b) (hf : FinB b) :
-    |bval b - v| ≤ pow2 (-24) * |v| ∨ (|v| < pow2 (-126) ∧ |bval b - v| ≤ pow2 (-150)) := by
+    |bval b - v| ≤ pow2 (-53) * |v| ∨ (|v| < pow2 (-1022) ∧ |bval b - v| ≤ pow2 (-1075)) := by
   rcases h with ⟨rfl, hb⟩ | ⟨hpos, T, d, e, hOk, rfl, rfl⟩ | ⟨hneg, T, d, e, hOk, hval, rfl⟩
   · left
     have : bval b = 0 := bval_zero b (by rcases hb with rfl | rfl <;> rfl)
     rw [this]; simp
-  · have hlt : rmag T d e < 2139095040 := by
+  · have hlt : rmag T d e < 9218868437227405312 := by
       have := rmag_le_inf T d e
       unfold FinB at hf; omega
     rw [abs_of_pos hpos]
     exact (rmag_err T d e hOk hlt).2.2
   · have hle := rmag_le_inf T d e
-    have hlt : rmag T d e < 2139095040 := by unfold FinB at hf; omega
-    have hb : bval (2147483648 + rmag T d e) = - bval (rmag T d e) := by
+    have hlt : rmag T d e < 9218868437227405312 := by unfold FinB at hf; omega
+    have hb : bval (9223372036854775808 + rmag T d e) = - bval (rmag T d e) := by
       rw [← neg_pos_bits _ (by omega)]; exact bval_neg _ (by omega)
     have hv : v = -((T : ℚ) / d * pow2 e) := by linarith
     have hav : |v| = (T : ℚ) / d * pow2 e := by rw [abs_of_neg hneg]; exact hval
@@ -384,35 +385,35 @@ theorem Rnd_err (v : ℚ) (b : Nat) (h : Rnd v b) (hf : FinB b) :
 
 /-! ## no overflow below the largest finite number; uniqueness; order against representable bounds -/
 
-/-- the largest finite binary32 value `(2^24 − 1)·2^104` -/
-def maxv : ℚ := 16777215 * pow2 104
+/-- the largest finite binary64 value `(2^53 − 1)·2^971` -/
+def maxv : ℚ := 9007199254740991 * pow2 971
 
-theorem bval_max : bval 2139095039 = maxv := by
-  have h1 : negB32 2139095039 = false := by decide
-  have h2 : mantB 2139095039 = 16777215 := by decide
-  have h3 : expB 2139095039 = 104 := by decide
+theorem bval_max : bval 9218868437227405311 = maxv := by
+  have h1 : negB64 9218868437227405311 = false := by decide
+  have h2 : mantB 9218868437227405311 = 9007199254740991 := by decide
+  have h3 : expB 9218868437227405311 = 971 := by decide
   unfold bval sval maxv; rw [h1, h2, h3]; simp
 
-theorem bval_negmax : bval 4286578687 = -maxv := by
-  have h1 : negB32 4286578687 = true := by decide
-  have h2 : mantB 4286578687 = 16777215 := by decide
-  have h3 : expB 4286578687 = 104 := by decide
+theorem bval_negmax : bval 18442240474082181119 = -maxv := by
+  have h1 : negB64 18442240474082181119 = true := by decide
+  have h2 : mantB 18442240474082181119 = 9007199254740991 := by decide
+  have h3 : expB 18442240474082181119 = 971 := by decide
   unfold bval sval maxv; rw [h1, h2, h3]; simp
 
 /-- the correct rounding of a rational of magnitude at most the largest finite number is finite -/
 theorem Rnd_fin (v : ℚ) (b : Nat) (h : Rnd v b) (hv : |v| ≤ maxv) : FinB b := by
   obtain ⟨hv1, hv2⟩ := abs_le.1 hv
-  have k1 := Rnd_mono v _ b _ h (Rnd_self 2139095039 (by norm_num) (by decide)) (by rw [bval_max]; exact hv2)
-  have k2 := Rnd_mono _ v _ b (Rnd_self 4286578687 (by norm_num) (by decide)) h (by rw [bval_negmax]; exact hv1)
-  have e1 : key 2139095039 = 2139095039 := by decide
-  have e2 : key 4286578687 = -2139095039 := by decide
+  have k1 := Rnd_mono v _ b _ h (Rnd_self 9218868437227405311 (by norm_num) (by decide)) (by rw [bval_max]; exact hv2)
+  have k2 := Rnd_mono _ v _ b (Rnd_self 18442240474082181119 (by norm_num) (by decide)) h (by rw [bval_negmax]; exact hv1)
+  have e1 : key 9218868437227405311 = 9218868437227405311 := by decide
+  have e2 : key 18442240474082181119 = -9218868437227405311 := by decide
   rw [e1] at k1; rw [e2] at k2
   obtain ⟨hn, hlt⟩ := Rnd_lt v b h
   unfold key at k1 k2
   unfold FinB
   split at k1 <;> omega
 
-/-- **no overflow strictly below the threshold** `2^128 − 2^103` (at the threshold itself the tie goes to the
+/-- **no overflow strictly below the threshold** `2^1024 − 2^970` (at the threshold itself the tie goes to the
     even neighbour, infinity) -/
 theorem Rnd_fin_ovf (v : ℚ) (b : Nat) (h : Rnd v b) (hv : |v| < ovf) : FinB b := by
   rcases h with ⟨_, hb⟩ | ⟨hpos, T, d, e, hOk, rfl, rfl⟩ | ⟨hneg, T, d, e, hOk, hval, rfl⟩
@@ -426,10 +427,10 @@ theorem Rnd_fin_ovf (v : ℚ) (b : Nat) (h : Rnd v b) (hv : |v| < ovf) : FinB b 
 
 theorem maxv_lt_ovf : maxv < ovf := by
   unfold maxv ovf
-  rw [pow2_pred 104]
-  have : (104 - 1 : Int) = 103 := by decide
+  rw [pow2_pred 971]
+  have : (971 - 1 : Int) = 970 := by decide
   rw [this]
-  have := pow2_pos 103
+  have := pow2_pos 970
   linarith
 
 /-- two correct roundings of the same rational have the same value -/
@@ -441,15 +442,15 @@ theorem Rnd_unique (v : ℚ) (b c : Nat) (hb : Rnd v b) (hc : Rnd v c) : bval b 
   · rw [bval_zero b h1, bval_zero c h2]
 
 /-- if the exact value is representable, the rounding returns it -/
-theorem Rnd_repr (v : ℚ) (b c : Nat) (hb : Rnd v b) (hc : c < 4294967296) (fc : FinB c) (hv : bval c = v) :
+theorem Rnd_repr (v : ℚ) (b c : Nat) (hb : Rnd v b) (hc : c < 18446744073709551616) (fc : FinB c) (hv : bval c = v) :
     bval b = v := by
   rw [← hv]; apply Rnd_unique v b c hb; rw [← hv]; exact Rnd_self c hc fc
 
-theorem Rnd_le_repr (v : ℚ) (b c : Nat) (hb : Rnd v b) (fb : FinB b) (hc : c < 4294967296) (fc : FinB c)
+theorem Rnd_le_repr (v : ℚ) (b c : Nat) (hb : Rnd v b) (fb : FinB b) (hc : c < 18446744073709551616) (fc : FinB c)
     (h : v ≤ bval c) : bval b ≤ bval c :=
   (key_le_iff b c (Rnd_lt v b hb).2 hc fb fc).1 (Rnd_mono v _ b c hb (Rnd_self c hc fc) h)
 
-theorem Rnd_ge_repr (v : ℚ) (b c : Nat) (hb : Rnd v b) (fb : FinB b) (hc : c < 4294967296) (fc : FinB c)
+theorem Rnd_ge_repr (v : ℚ) (b c : Nat) (hb : Rnd v b) (fb : FinB b) (hc : c < 18446744073709551616) (fc : FinB c)
     (h : bval c ≤ v) : bval c ≤ bval b :=
   (key_le_iff c b hc (Rnd_lt v b hb).2 fc fb).1 (Rnd_mono _ v c b (Rnd_self c hc fc) hb h)
 
@@ -458,46 +459,46 @@ theorem Rnd_le_val (v v' : ℚ) (b b' : Nat) (hb : Rnd v b) (hb' : Rnd v' b') (f
     (h : v ≤ v') : bval b ≤ bval b' :=
   (key_le_iff b b' (Rnd_lt v b hb).2 (Rnd_lt v' b' hb').2 fb fb').1 (Rnd_mono v v' b b' hb hb' h)
 
-/-! ## the grid `2^-149·ℤ`: sums and differences never lose accuracy to gradual underflow -/
+/-! ## the grid `2^-1074·ℤ`: sums and differences never lose accuracy to gradual underflow -/
 
-theorem bval_grid (b : Nat) : ∃ z : Int, bval b = (z : ℚ) * pow2 (-149) := by
+theorem bval_grid (b : Nat) : ∃ z : Int, bval b = (z : ℚ) * pow2 (-1074) := by
   unfold bval sval
   have he := expB_ge b
-  rw [pow2_split (expB b) (-149) he]
-  cases negB32 b
-  · exact ⟨((mantB b * 2 ^ (expB b - -149).toNat : Nat) : Int), by push_cast; ring⟩
-  · exact ⟨-((mantB b * 2 ^ (expB b - -149).toNat : Nat) : Int), by push_cast; (try simp only [if_true]); ring⟩
+  rw [pow2_split (expB b) (-1074) he]
+  cases negB64 b
+  · exact ⟨((mantB b * 2 ^ (expB b - -1074).toNat : Nat) : Int), by push_cast; ring⟩
+  · exact ⟨-((mantB b * 2 ^ (expB b - -1074).toNat : Nat) : Int), by push_cast; (try simp only [if_true]); ring⟩
 
-theorem pow2_126 : pow2 (-126) = 8388608 * pow2 (-149) := by
-  have := pow2_split (-126) (-149) (by omega)
+theorem pow2_126 : pow2 (-1022) = 4503599627370496 * pow2 (-1074) := by
+  have := pow2_split (-1022) (-1074) (by omega)
   rw [this]
-  have : (-126 - -149 : Int).toNat = 23 := by decide
+  have : (-1022 - -1074 : Int).toNat = 52 := by decide
   rw [this]; norm_num
 
-/-- the subnormal (and zero) patterns represent every point of the grid below `2^-126` -/
-theorem grid_repr (z : Int) (hz : |z| < 8388608) :
-    ∃ c : Nat, c < 4294967296 ∧ FinB c ∧ bval c = (z : ℚ) * pow2 (-149) := by
+/-- the subnormal (and zero) patterns represent every point of the grid below `2^-1022` -/
+theorem grid_repr (z : Int) (hz : |z| < 4503599627370496) :
+    ∃ c : Nat, c < 18446744073709551616 ∧ FinB c ∧ bval c = (z : ℚ) * pow2 (-1074) := by
   have hz' := abs_lt.1 hz
   by_cases hneg : z < 0
-  · refine ⟨2147483648 + z.natAbs, by omega, by unfold FinB; omega, ?_⟩
-    have h1 : negB32 (2147483648 + z.natAbs) = true := by
-      unfold negB32
-      have : (2147483648 + z.natAbs) / 2147483648 % 2 = 1 := by omega
+  · refine ⟨9223372036854775808 + z.natAbs, by omega, by unfold FinB; omega, ?_⟩
+    have h1 : negB64 (9223372036854775808 + z.natAbs) = true := by
+      unfold negB64
+      have : (9223372036854775808 + z.natAbs) / 9223372036854775808 % 2 = 1 := by omega
       rw [this]; rfl
-    have h2 : mantB (2147483648 + z.natAbs) = z.natAbs := by unfold mantB; split <;> omega
-    have h3 : expB (2147483648 + z.natAbs) = -149 := by unfold expB; split <;> omega
+    have h2 : mantB (9223372036854775808 + z.natAbs) = z.natAbs := by unfold mantB; split <;> omega
+    have h3 : expB (9223372036854775808 + z.natAbs) = -1074 := by unfold expB; split <;> omega
     unfold bval sval; rw [h1, h2, h3]
     have : (z : ℚ) = -((z.natAbs : Nat) : ℚ) := by
       have : z = -((z.natAbs : Nat) : Int) := by omega
       rw [← Int.cast_natCast, ← Int.cast_neg, ← this]
     rw [this]; simp
   · refine ⟨z.natAbs, by omega, by unfold FinB; omega, ?_⟩
-    have h1 : negB32 z.natAbs = false := by
-      unfold negB32
-      have : z.natAbs / 2147483648 % 2 = 0 := by omega
+    have h1 : negB64 z.natAbs = false := by
+      unfold negB64
+      have : z.natAbs / 9223372036854775808 % 2 = 0 := by omega
       rw [this]; rfl
     have h2 : mantB z.natAbs = z.natAbs := by unfold mantB; split <;> omega
-    have h3 : expB z.natAbs = -149 := by unfold expB; split <;> omega
+    have h3 : expB z.natAbs = -1074 := by unfold expB; split <;> omega
     unfold bval sval; rw [h1, h2, h3]
     have : (z : ℚ) = ((z.natAbs : Nat) : ℚ) := by
       have : z = ((z.natAbs : Nat) : Int) := by omega
@@ -505,12 +506,12 @@ theorem grid_repr (z : Int) (hz : |z| < 8388608) :
     rw [this]; simp
 
 /-- a rounded grid point (a sum or difference of two floats): the relative bound holds without exception -/
-theorem Rnd_err_grid (v : ℚ) (b : Nat) (h : Rnd v b) (hf : FinB b) (z : Int) (hv : v = (z : ℚ) * pow2 (-149)) :
-    |bval b - v| ≤ pow2 (-24) * |v| := by
+theorem Rnd_err_grid (v : ℚ) (b : Nat) (h : Rnd v b) (hf : FinB b) (z : Int) (hv : v = (z : ℚ) * pow2 (-1074)) :
+    |bval b - v| ≤ pow2 (-53) * |v| := by
   rcases Rnd_err v b h hf with h1 | ⟨h1, _⟩
   · exact h1
-  · have hp := pow2_pos (-149)
-    have hz : |z| < 8388608 := by
+  · have hp := pow2_pos (-1074)
+    have hz : |z| < 4503599627370496 := by
       rw [hv, pow2_126, abs_mul, abs_of_pos hp] at h1
       have := lt_of_mul_lt_mul_right h1 hp.le
       have h2 : |(z : ℚ)| = ((|z| : Int) : ℚ) := by simp
@@ -521,22 +522,22 @@ theorem Rnd_err_grid (v : ℚ) (b : Nat) (h : Rnd v b) (hf : FinB b) (z : Int) (
     rw [this, sub_self, abs_zero]
     exact mul_nonneg (pow2_pos _).le (abs_nonneg _)
 
-/-! ## `F32` level -/
+/-! ## `F64` level -/
 
-/-- unit roundoff of binary32 -/
-def u : ℚ := 1 / 16777216
-/-- smallest positive normal number `2^-126` -/
-def minN : ℚ := pow2 (-126)
+/-- unit roundoff of binary64 -/
+def u : ℚ := 1 / 9007199254740992
+/-- smallest positive normal number `2^-1022` -/
+def minN : ℚ := pow2 (-1022)
 
-theorem pow2_m24 : pow2 (-24) = u := by unfold pow2 u; norm_num
-theorem pow2_m150 : pow2 (-150) = u * minN := by
+theorem pow2_m24 : pow2 (-53) = u := by unfold pow2 u; norm_num
+theorem pow2_m150 : pow2 (-1075) = u * minN := by
   rw [← pow2_m24]; unfold minN; rw [← pow2_add]; rfl
 theorem minN_pos : 0 < minN := pow2_pos _
 theorem u_pos : 0 < u := by unfold u; norm_num
 
-theorem val_grid (a : F32) : ∃ z : Int, val a = (z : ℚ) * pow2 (-149) := bval_grid a.nb
+theorem val_grid (a : F64) : ∃ z : Int, val a = (z : ℚ) * pow2 (-1074) := bval_grid a.nb
 
-theorem add_err {a b : F32} (ha : Fin a) (hb : Fin b) (hr : |val a + val b| ≤ maxv) :
+theorem add_err {a b : F64} (ha : Fin a) (hb : Fin b) (hr : |val a + val b| ≤ maxv) :
     Fin (a + b) ∧ |val (a + b) - (val a + val b)| ≤ u * |val a + val b| := by
   have h := add_nb ha hb
   have hf : Fin (a + b) := Rnd_fin _ _ h hr
@@ -546,7 +547,7 @@ theorem add_err {a b : F32} (ha : Fin a) (hb : Fin b) (hr : |val a + val b| ≤ 
   rw [← pow2_m24]
   exact Rnd_err_grid _ _ h hf (z1 + z2) (by rw [h1, h2]; push_cast; ring)
 
-theorem sub_err {a b : F32} (ha : Fin a) (hb : Fin b) (hr : |val a - val b| ≤ maxv) :
+theorem sub_err {a b : F64} (ha : Fin a) (hb : Fin b) (hr : |val a - val b| ≤ maxv) :
     Fin (a - b) ∧ |val (a - b) - (val a - val b)| ≤ u * |val a - val b| := by
   have h := sub_nb ha hb
   have hf : Fin (a - b) := Rnd_fin _ _ h hr
@@ -556,7 +557,7 @@ theorem sub_err {a b : F32} (ha : Fin a) (hb : Fin b) (hr : |val a - val b| ≤ 
   rw [← pow2_m24]
   exact Rnd_err_grid _ _ h hf (z1 - z2) (by rw [h1, h2]; push_cast; ring)
 
-theorem mul_err {a b : F32} (ha : Fin a) (hb : Fin b) (hr : |val a * val b| ≤ maxv) :
+theorem mul_err {a b : F64} (ha : Fin a) (hb : Fin b) (hr : |val a * val b| ≤ maxv) :
     Fin (a * b) ∧ (|val (a * b) - val a * val b| ≤ u * |val a * val b| ∨
       (|val a * val b| < minN ∧ |val (a * b) - val a * val b| ≤ u * minN)) := by
   have h := mul_nb ha hb
@@ -565,7 +566,7 @@ theorem mul_err {a b : F32} (ha : Fin a) (hb : Fin b) (hr : |val a * val b| ≤ 
   rw [← pow2_m150, ← pow2_m24]
   exact Rnd_err _ _ h hf
 
-theorem div_err {a b : F32} (ha : Fin a) (hb : Fin b) (h0 : val b ≠ 0) (hr : |val a / val b| ≤ maxv) :
+theorem div_err {a b : F64} (ha : Fin a) (hb : Fin b) (h0 : val b ≠ 0) (hr : |val a / val b| ≤ maxv) :
     Fin (a / b) ∧ (|val (a / b) - val a / val b| ≤ u * |val a / val b| ∨
       (|val a / val b| < minN ∧ |val (a / b) - val a / val b| ≤ u * minN)) := by
   have h := div_nb ha hb h0
@@ -575,51 +576,51 @@ theorem div_err {a b : F32} (ha : Fin a) (hb : Fin b) (h0 : val b ≠ 0) (hr : |
   exact Rnd_err _ _ h hf
 
 
-/-- finite (`FloatMono32.Fin`; renamed because `Fin` is taken) -/
-abbrev Fn (a : F32) : Prop := FloatMono32.Fin a
+/-- finite (`FloatMono.Fin`; renamed because `Fin` is taken) -/
+abbrev Fn (a : F64) : Prop := FloatMono.Fin a
 
-theorem abs_val_le_maxv {a : F32} (ha : Fn a) : |val a| ≤ maxv := by
+theorem abs_val_le_maxv {a : F64} (ha : Fn a) : |val a| ≤ maxv := by
   have hk := kk_bound ha
-  have f1 : FinB 2139095039 := by decide
-  have f2 : FinB 4286578687 := by decide
-  have e1 : key 2139095039 = 2139095039 := by decide
-  have e2 : key 4286578687 = -2139095039 := by decide
-  have h1 := (key_le_iff a.nb 2139095039 (nb_lt a) (by norm_num) ha f1).1 (by rw [e1]; unfold kk at hk; omega)
-  have h2 := (key_le_iff 4286578687 a.nb (by norm_num) (nb_lt a) f2 ha).1 (by rw [e2]; unfold kk at hk; omega)
+  have f1 : FinB 9218868437227405311 := by decide
+  have f2 : FinB 18442240474082181119 := by decide
+  have e1 : key 9218868437227405311 = 9218868437227405311 := by decide
+  have e2 : key 18442240474082181119 = -9218868437227405311 := by decide
+  have h1 := (key_le_iff a.nb 9218868437227405311 (nb_lt a) (by norm_num) ha f1).1 (by rw [e1]; unfold kk at hk; omega)
+  have h2 := (key_le_iff 18442240474082181119 a.nb (by norm_num) (nb_lt a) f2 ha).1 (by rw [e2]; unfold kk at hk; omega)
   rw [bval_max] at h1; rw [bval_negmax] at h2
   exact abs_le.2 ⟨h2, h1⟩
 
 /-- **`Rnd_rel_err`** — the standard model in the normal range: if `b` is the correct rounding of `v` and
-    `2^-126 ≤ |v| < 2^128 − 2^103` (the overflow threshold), then `b` is finite and `|val b − v| ≤ 2^-24·|v|` -/
-theorem Rnd_rel_err (v : ℚ) (b : Nat) (h : Rnd v b) (hlo : pow2 (-126) ≤ |v|) (hhi : |v| < ovf) :
-    FinB b ∧ |bval b - v| ≤ pow2 (-24) * |v| := by
+    `2^-1022 ≤ |v| < 2^1024 − 2^970` (the overflow threshold), then `b` is finite and `|val b − v| ≤ 2^-53·|v|` -/
+theorem Rnd_rel_err (v : ℚ) (b : Nat) (h : Rnd v b) (hlo : pow2 (-1022) ≤ |v|) (hhi : |v| < ovf) :
+    FinB b ∧ |bval b - v| ≤ pow2 (-53) * |v| := by
   have hf := Rnd_fin_ovf v b h hhi
   refine ⟨hf, ?_⟩
   rcases Rnd_err v b h hf with h1 | ⟨h1, _⟩
   · exact h1
   · exact absurd hlo (not_le.2 h1)
 
-/-- **`Rnd_abs_err`** — below the normal range (gradual underflow): `|val b − v| ≤ 2^-150 = 2^(emin−1)` -/
-theorem Rnd_abs_err (v : ℚ) (b : Nat) (h : Rnd v b) (hlo : |v| < pow2 (-126)) :
-    FinB b ∧ |bval b - v| ≤ pow2 (-150) := by
-  have hmax : pow2 (-126) ≤ maxv := by
+/-- **`Rnd_abs_err`** — below the normal range (gradual underflow): `|val b − v| ≤ 2^-1075 = 2^(emin−1)` -/
+theorem Rnd_abs_err (v : ℚ) (b : Nat) (h : Rnd v b) (hlo : |v| < pow2 (-1022)) :
+    FinB b ∧ |bval b - v| ≤ pow2 (-1075) := by
+  have hmax : pow2 (-1022) ≤ maxv := by
     unfold maxv
-    calc pow2 (-126) ≤ pow2 104 := pow2_mono (by omega)
-      _ ≤ 16777215 * pow2 104 := by have := pow2_pos 104; linarith
+    calc pow2 (-1022) ≤ pow2 971 := pow2_mono (by omega)
+      _ ≤ 9007199254740991 * pow2 971 := by have := pow2_pos 971; linarith
   have hf := Rnd_fin v b h (le_trans hlo.le hmax)
   refine ⟨hf, ?_⟩
   rcases Rnd_err v b h hf with h1 | ⟨_, h1⟩
   · refine le_trans h1 ?_
-    have : pow2 (-150) = pow2 (-24) * pow2 (-126) := by rw [← pow2_add]; rfl
+    have : pow2 (-1075) = pow2 (-53) * pow2 (-1022) := by rw [← pow2_add]; rfl
     rw [this]
     exact mul_le_mul_of_nonneg_left hlo.le (pow2_pos _).le
   · exact h1
 
 /-- both regimes at once -/
 theorem Rnd_err_sum (v : ℚ) (b : Nat) (h : Rnd v b) (hf : FinB b) :
-    |bval b - v| ≤ pow2 (-24) * |v| + pow2 (-150) := by
+    |bval b - v| ≤ pow2 (-53) * |v| + pow2 (-1075) := by
   rcases Rnd_err v b h hf with h1 | ⟨_, h1⟩
-  · have := pow2_pos (-150); linarith
-  · have := mul_nonneg (pow2_pos (-24)).le (abs_nonneg v); linarith
+  · have := pow2_pos (-1075); linarith
+  · have := mul_nonneg (pow2_pos (-53)).le (abs_nonneg v); linarith
 
-end Ivg.FloatErr
+end Ivg.FloatErr64
